@@ -727,7 +727,7 @@ func init() {
 		Setup: func() { c08ProjEnv() },
 		Level: "model_checking",
 		Rule: "case = New input (column map over names a,b,c with every data kind incl. Const* and unsupported types, every length combination from {0,1,3}, every ColumnOrder variant: none/all permutations/too short/too long/unknown/duplicate, every Enums variant: none/nil/empty/covering/non-covering/missing column/other column), " +
-			"name alphabets incl. illegal names, string cell alphabets (\"\", nil, NUL, invalid UTF-8, 300 bytes); and every Select sequence, Drop subset, Slice bound pair and Copy pair on 7 index shapes, alone and as the second step after every valid Select sequence / Drop subset. " +
+			"name alphabets incl. illegal names, string cell alphabets (\"\", nil, NUL, invalid UTF-8, 300 bytes); and every Select sequence, Drop subset, Slice bound pair and Copy pair on 8 index shapes, alone and as the second step after every valid Select sequence / Drop subset. " +
 			"Non-trivial = New accepted by the model / any projection request; distinct by case content.",
 		Assumptions: []string{
 			"model of New written from the statement: reject illegal names, unequal lengths, unknown/duplicate ColumnOrder entries, Enums entries for missing or non-string columns, undeclared enum values, unsupported data types",
